@@ -352,6 +352,9 @@ impl<R: RTraits> PMTiles<R> {
     async fn fn_name(self, output: &mut (impl WTraits)) -> Result<()> {
         let result = add_await([self.tile_manager.finish()])?;
 
+        // all offsets are relative to the position the stream starts at
+        let start_pos = add_await([output.stream_position()])?;
+
         // ROOT DIR
         add_await([output.seek(SeekFrom::Current(i64::from(HEADER_BYTES)))])?;
         let root_directory_offset = u64::from(HEADER_BYTES);
@@ -361,7 +364,8 @@ impl<R: RTraits> PMTiles<R> {
             self.internal_compression,
             None,
         )])?;
-        let root_directory_length = add_await([output.stream_position()])? - root_directory_offset;
+        let root_directory_length =
+            add_await([output.stream_position()])? - start_pos - root_directory_offset;
 
         // META DATA
         let json_metadata_offset = root_directory_offset + root_directory_length;
@@ -372,14 +376,15 @@ impl<R: RTraits> PMTiles<R> {
 
             add_await([compression_writer.flush()])?;
         }
-        let json_metadata_length = add_await([output.stream_position()])? - json_metadata_offset;
+        let json_metadata_length =
+            add_await([output.stream_position()])? - start_pos - json_metadata_offset;
 
         // LEAF DIRECTORIES
         let leaf_directories_offset = json_metadata_offset + json_metadata_length;
         add_await([output.write_all(&leaf_directories_data[0..])])?;
         drop(leaf_directories_data);
         let leaf_directories_length =
-            add_await([output.stream_position()])? - leaf_directories_offset;
+            add_await([output.stream_position()])? - start_pos - leaf_directories_offset;
 
         // DATA
         let tile_data_offset = leaf_directories_offset + leaf_directories_length;
@@ -421,15 +426,13 @@ impl<R: RTraits> PMTiles<R> {
             },
         };
 
-        add_await([output.seek(SeekFrom::Start(
-            root_directory_offset - u64::from(HEADER_BYTES),
-        ))])?; // jump to start of stream
+        add_await([output.seek(SeekFrom::Start(start_pos))])?; // jump to start of archive
 
         add_await([header.to_writer(output)])?;
 
         add_await([output.seek(SeekFrom::Start(
-            (root_directory_offset - u64::from(HEADER_BYTES)) + tile_data_offset + tile_data_length,
-        ))])?; // jump to end of stream
+            start_pos + tile_data_offset + tile_data_length,
+        ))])?; // jump to end of archive
 
         Ok(())
     }
